@@ -19,7 +19,7 @@ LOADS = {"ld1": (1, 8.0, 2.0), "ld4": (4, 2.0, 1.0), "ld2": (3, 5.0, 1.0)}
 SGEN = {"small": (3.0, 0.5), "equal": (8.0, 0.5), "large": (12.0, 0.5), "oos": (3.0, 0.5)}
 LINES = {"l0": (0, 1, 10.0), "l1": (1, 2, 10.0), "l2": (0, 2, 15.0)}
 PF = dict(tolerance_mva=1e-9, trafo_model="pi", calculate_voltage_angles=True)
-CAP_THOROUGH = 16000
+CAP_THOROUGH = int(os.environ.get("VERIF_C21_CAP", "16000"))      # env override: development only
 _BASE = {}
 
 
@@ -127,7 +127,7 @@ def observe(job):
         pp.runpp(net2, **PF)
         if not net2.converged:
             raise LoadflowNotConverged("not converged")
-        # converted buses are created under the case file's bus numbers 0..n-1 (from_ppc.py:75)
+        # converted buses are created under the case file's bus numbers 0..n-1 (from_ppc.py:82)
         net2.res_bus.sort_index(inplace=True)
         if list(net2.res_bus.index) != list(range(len(net2.bus))):
             out["outcome"] = "bus_numbers_not_consecutive"
